@@ -3,6 +3,7 @@ package main
 import (
 	"bytes"
 	"encoding/json"
+	"errors"
 	"flag"
 	"fmt"
 	"io"
@@ -80,6 +81,33 @@ type BuildCase struct {
 	MixV0       bool    `json:"mixv0"`       // directories: mixed CIDv0 / CIDv1 entry links
 	FaultSample int     `json:"faultsample"` // with Faults: inject only at this many evenly spread positions (0 = every position)
 	Hasher      uint64  `json:"hasher"`      // sharded directories: name hasher (0 = murmur3)
+	// files, beyond the listed properties: the source reader fails (a non-EOF error) after k bytes, for every k in
+	// ReadFailAt, or for every k in 0..Len when ReadFaults is set
+	ReadFaults bool  `json:"readfaults"`
+	ReadFailAt []int `json:"readfailat"`
+}
+
+// failingReader delivers the first `left` bytes of r and then a non-EOF error (also in place of the final EOF).
+type failingReader struct {
+	r    io.Reader
+	left int
+}
+
+var errInjectedRead = errors.New("injected source read failure")
+
+func (f *failingReader) Read(p []byte) (int, error) {
+	if f.left <= 0 {
+		return 0, errInjectedRead
+	}
+	if len(p) > f.left {
+		p = p[:f.left]
+	}
+	n, err := f.r.Read(p)
+	f.left -= n
+	if err == io.EOF {
+		err = errInjectedRead
+	}
+	return n, err
 }
 
 type fragReader struct {
@@ -198,6 +226,7 @@ type buildVariant struct {
 	failCommit  int
 	tag         string
 	eofWithData bool
+	readFail    int // k+1: the source reader fails after k bytes (0 = never)
 }
 
 // oneBuild runs a single build variant on a fresh store.
@@ -223,6 +252,9 @@ func oneBuild(bc *BuildCase, v buildVariant, cc *caseClasses, content []byte, tr
 			var r io.Reader = bytes.NewReader(content)
 			if v.frag != nil {
 				r = &fragReader{b: append([]byte(nil), content...), sizes: v.frag, eofWithData: v.eofWithData}
+			}
+			if v.readFail > 0 {
+				r = &failingReader{r: r, left: v.readFail - 1}
 			}
 			lnk, size, err = builder.BuildUnixFSFile(r, bc.Chunker, ls)
 		case "symlink":
@@ -272,7 +304,7 @@ func oneBuild(bc *BuildCase, v buildVariant, cc *caseClasses, content []byte, tr
 	ev := M{"ev": "build", "what": bc.What, "input": v.input, "tag": v.tag, "commits": commits, "wev": wev, "ext": ext,
 		"ret":      M{"link": cc.classOf(root), "size": size, "e": errClass(err)},
 		"failOpen": v.failOpen, "failCommit": v.failCommit, "faulted": faulted, "root": rootS,
-		"n": -1, "w": bc.W, "opens": st.opens, "ncommits": len(st.commits)}
+		"n": -1, "w": bc.W, "opens": st.opens, "ncommits": len(st.commits), "readFail": v.readFail - 1}
 	return ev, st, root
 }
 
@@ -354,6 +386,20 @@ func runBuildCase(bc *BuildCase, tr *Tr) error {
 	for i, f := range bc.Frags {
 		emit(buildVariant{input: 1, order: bc.Entries, frag: f, tag: fmt.Sprintf("frag-%d", i)})
 		emit(buildVariant{input: 1, order: bc.Entries, frag: f, eofWithData: true, tag: fmt.Sprintf("frag-eof-%d", i)})
+	}
+	if bc.What == "file" && (bc.ReadFaults || len(bc.ReadFailAt) > 0) {
+		ks := bc.ReadFailAt
+		if len(ks) == 0 {
+			for k := 0; k <= len(content); k++ {
+				ks = append(ks, k)
+			}
+		}
+		for _, k := range ks {
+			if k >= 0 && k <= len(content) {
+				emit(buildVariant{input: 1, order: bc.Entries, readFail: k + 1, tag: fmt.Sprintf("readfail-%d", k)})
+				emit(buildVariant{input: 1, order: bc.Entries, readFail: k + 1, frag: []int{1, 5, 2}, tag: fmt.Sprintf("readfail-frag-%d", k)})
+			}
+		}
 	}
 	if bc.Faults {
 		nOpens, nCommits := st.opens, len(st.commits)
@@ -453,7 +499,7 @@ func summarizeBig(ev M) {
 	ev["n"] = -1
 }
 
-var treeNames = []string{"a", "b b", "ünï", "c.txt", "0A", "z-long-name-with-many-characters"}
+var treeNames = []string{"a", "b b", "ünï", "c.txt", "0A", "z-long-name-with-many-characters", "a.md", "ab", "b b 2", "c"}
 
 // randomTree draws a small filesystem tree: depth <= 2, <= 3 children.
 func randomTree(r *rand.Rand, depth int, allowFifo bool) *TreeSpec {
@@ -543,7 +589,7 @@ func init() {
 						}
 						sh := shape{n, w, 3, last}
 						bc := &BuildCase{Fam: "build", ID: fmt.Sprintf("file-%d-%d-%d", n, w, last), What: "file", Len: sh.length(),
-							Chunker: "size-3", W: w, Content: "distinct", Ref: true, Faults: *faults}
+							Chunker: "size-3", W: w, Content: "distinct", Ref: true, Faults: *faults, ReadFaults: *faults}
 						if err := runBuildCase(bc, tr); err != nil {
 							return err
 						}
@@ -699,6 +745,14 @@ func init() {
 				}
 			}
 		case "misc":
+			// a source reader that fails at / around the read-ahead and chunk boundaries of the default and a content-defined chunker
+			for i, ch := range []string{"", "size-262144", "rabin-16-32-64", "buzhash"} {
+				bc := &BuildCase{Fam: "build", ID: fmt.Sprintf("readfail-%q", ch), What: "file", Len: 600000, Chunker: ch, W: []int{174, 2, 3, 174}[i],
+					Content: "random", Seed: 77, ReadFailAt: []int{0, 1, 511, 512, 4095, 4096, 4097, 65536, 262143, 262144, 262145, 524288, 599999, 600000}}
+				if err := runBuildCase(bc, tr); err != nil {
+					return err
+				}
+			}
 			for _, tgt := range []string{"", "a", "../x/y", "/abs/olute", "ünï ço dé", string(make([]byte, 300))} {
 				bc := &BuildCase{Fam: "build", ID: fmt.Sprintf("symlink-%q", tgt), What: "symlink", Target: tgt, Faults: true, Repeat: 1}
 				if err := runBuildCase(bc, tr); err != nil {
@@ -739,6 +793,24 @@ func init() {
 					W: 2 + i%3, Content: "random", Seed: r.Int63(), Ref: true}
 				if err := runBuildCase(bc, tr); err != nil {
 					return err
+				}
+			}
+		case "chunkers":
+			// every chunker string form at the boundaries of its parameters: the largest permitted chunk (1 MiB, inclusive), one
+			// below it, the default size and one above it; content-defined chunkers on content that never cuts (chunks of the
+			// maximum size) and on random content
+			for i, ch := range []string{"size-1048576", "size-1048575", "size-262144", "size-262145", "default", "",
+				"rabin-262144-524288-1048576", "rabin-16-1048575-1048576", "rabin", "buzhash", "size-1"} {
+				for _, content := range []string{"random", "repeat"} {
+					L := 5*(1<<19) + 5
+					if ch == "size-1" {
+						L = 1000
+					}
+					bc := &BuildCase{Fam: "build", ID: fmt.Sprintf("chunker-%q-%s", ch, content), What: "file", Len: L, Chunker: ch, W: []int{174, 2}[i%2],
+						Content: content, Seed: int64(i + 1), Ref: true}
+					if err := runBuildCase(bc, tr); err != nil {
+						return err
+					}
 				}
 			}
 		case "wide":
